@@ -125,6 +125,14 @@ func randModel(r *rand.Rand) *mdef {
 		}
 		m.fields = append(m.fields, f)
 	}
+	// cross-renamed columns: two fields of one kind whose columns are spelled like the OTHER field's Go name
+	if r.Intn(4) == 0 {
+		base := len(m.fields) - n
+		i := base + r.Intn(n)
+		j := base + (i-base+1+r.Intn(n-1))%n
+		m.fields[j].Kind, m.fields[j].Dflt, m.fields[j].Auto = m.fields[i].Kind, m.fields[i].Dflt, ""
+		m.fields[i].Col, m.fields[j].Col = m.fields[j].Name, m.fields[i].Name
+	}
 	// embedded struct with prefix
 	var sf []reflect.StructField
 	for _, f := range m.fields {
